@@ -120,6 +120,28 @@ namespace sim
          j.with_faults = false;
          return j;
       }
+      else if( check == "C05" && sub == 4 && index % 16 == 12 ) {
+         // parse_nested called from an action (fixed grammar, stock inputs)
+         j.mode = MODE_IO;
+         const SetId cls[] = { static_cast< SetId >( IO_LAZY ), static_cast< SetId >( IO_STRING ), static_cast< SetId >( IO_CSTREAM ), static_cast< SetId >( IO_ISTREAM ) };
+         j.set = cls[ r.below( 4 ) ];
+         Case& c = j.c;
+         c.prog = IO_PROG_NESTED;
+         c.vetoseed = r.next();
+         c.input = gen_io_input( mix64( s, 0x696f ), IO_PROG_NESTED, int( j.set ) );
+         c.maximum = static_cast< std::uint32_t >( c.input.size() ) + 64;
+         if( int( j.set ) == IO_CSTREAM || int( j.set ) == IO_ISTREAM ) {
+            gen_stream_plan( mix64( s, 0x706c616e ), c, 64 );
+            c.maximum = static_cast< std::uint32_t >( c.input.size() ) + 64;
+         }
+         if( r.chance( 1, 2 ) ) {
+            const std::uint8_t sites[] = { SITE_ACTION, SITE_ACTION, SITE_SUCCESS_HOOK, SITE_FAILURE_HOOK };
+            const std::uint8_t cl[] = { EXC_FAULT, EXC_STD, EXC_PE, EXC_INT };
+            c.faults.push_back( FaultOp{ sites[ r.below( 4 ) ], cl[ r.below( 4 ) ], static_cast< std::uint16_t >( r.range( 1, 8 ) ) } );
+         }
+         j.with_faults = !c.faults.empty();
+         return j;
+      }
       else if( check == "C05" ) {
          p.focus = r.chance( 5, 6 ) ? FOCUS_EXC : FOCUS_GENERAL;
          if( sub != 0 && sub != 4 ) {
